@@ -75,6 +75,8 @@ def gen_rare_table(R):
     for k in range(R.randint(1, 4)):            # rare strings: held by < lt entities, possibly with very many rows
         ne = R.randint(1, max(1, lt - 1)); rows_per = R.choice([1, 5, 60])
         lab = R.choice(["aaa-rare", "zzz-rare", "mid-rare", "beta-rare"]) + str(k)
+        if R.random() < 0.35:          # a rare string that differs from a well-populated one only in case / by a trailing blank / by an accent
+            lab = R.choice(["Alpha", "ALPHA", "Beta", "alpha ", "alphá", "Gamma"])
         for e in range(ne):
             eid += 1
             for _ in range(rows_per):
